@@ -113,6 +113,33 @@ def edge_types(schema: dict) -> set:
     return out
 
 
+_M61 = 2**61 - 1
+
+
+def hash_neighbour(dflt: dict, fs: dict):
+    """A value that is NOT the default but has the default's hash in CPython (hash(-2) == hash(-1);
+    integers hash modulo 2**61 - 1): an implementation that compares hashes instead of values elides it."""
+    from .project import unaint
+    if fs["kind"] == "prim":
+        rng_ = INT_RANGES.get(fs["ktype"])
+        if rng_ is None or not ("int" in dflt or "bits" in dflt):
+            return None
+        d = unaint(dflt)
+        for cand in ([-2] if d == -1 else []) + [d + _M61, d - _M61]:
+            if rng_[0] <= cand <= rng_[1] and cand != d:
+                return aint(cand)
+        return None
+    if "rec" not in dflt:
+        return None
+    for i, sub in enumerate(fs["sub"]["fields"]):
+        if sub["arr"] or sub["tag"] >= 0:
+            continue
+        n = hash_neighbour(dflt["rec"][i], sub)
+        if n is not None:
+            return {"rec": dflt["rec"][:i] + [n] + dflt["rec"][i + 1:]}
+    return None
+
+
 class Sampler:
     def __init__(self, seed: int, profile: str = "mixed", ms_timestamps: bool = True,
                  wire_domain: bool = False, edge: int | None = None, big_lengths: list | None = None):
@@ -280,6 +307,10 @@ class Sampler:
                 z = zero_value(fs)
                 if z != dflt and r.random() < (1.0 if self.profile == "max" else 0.3):
                     return z          # all-zero struct where the declared defaults are not zero
+            if not fs["arr"] and r.random() < 0.2:
+                n = hash_neighbour(dflt, fs)
+                if n is not None:
+                    return n          # differs from the default, yet hashes like it in CPython
         if fs["arr"]:
             if fs["nul"] and self._null_roll() and not (tagged and "null" not in dflt):
                 return NULL
